@@ -202,6 +202,23 @@ def peak(mean_curve):
     return l
 
 
+def peak_candidates(mean_curve):
+    """Samples that may be called *the* peak of the mean curve, or None.
+
+    As ``peak``, but a flat-topped highest maximum (a run of exactly equal samples) is admitted: the statement
+    does not say which sample of a flat top is the peak, so every sample of the run is a candidate (weakest
+    reading; the middle one, (l+r)//2, comes first).  None when there is no interior local maximum or when the
+    highest one is not unique / rounding-dependent.  Samples outside the run that merely carry the same value
+    (an end sample, a sample on a monotone stretch) are NOT peaks and never candidates.
+    """
+    runs, ambiguous = top_maxima(mean_curve)
+    if ambiguous or len(runs) != 1:
+        return None
+    l, r = runs[0]
+    mid = (l + r) // 2
+    return [mid] + [i for i in range(l, r + 1) if i != mid]
+
+
 # ---------------------------------------------------------------------------
 # table
 
